@@ -89,7 +89,7 @@ def compare(variant, params, yA, ndA, yB, ndB, back, valid, what, p, sub):
         lam_diff = (loptA != loptB) & ~(np.isnan(loptA) & np.isnan(loptB)) & enough
         # tiny relative differences of the reported lambda are float noise of 10**x, not a different selection
         with np.errstate(all="ignore"):
-            lam_diff &= np.abs(loptA - loptB) > 1e-9 * np.abs(loptA)
+            lam_diff &= ~(np.abs(loptA - loptB) <= 1e-9 * np.abs(loptA))      # written so that a NaN lambda counts as different
     todo = np.nonzero(band_diff | lam_diff)[0]
     if todo.size == 0:
         return
